@@ -25,34 +25,34 @@ def r1_polarity(ctx, cb):
     b = cb.b
     rule = 'C02-R1'
     ctx.touched(b)
+    # polarity, as a truth table over (kind of property, outcome of its condition): a discovery is recorded
+    # exactly for (Always, false) and (Sometimes, true) - however the arms are laid out
     want = {'Always': False, 'Sometimes': True}
-    seen = set()
-    for ins in cb.as_inserts:
-        arm = role_of_insert(cb, ins)
-        if arm not in want:
-            ctx.bad(rule, 'insert-in-%s-arm' % arm, b,
-                    '%s: a discovery is recorded in the %s arm of the expectation match: %s' %
-                    (cb.strat, arm, 'eventually discoveries are only legitimate at terminal states'
-                     if arm == 'Eventually' else 'unexpected site'), span=ins.span)
+    in_loop = [c for c in cb.as_inserts if b.dominates(cb.prop_loop.bb, c.bb)]
+    for arm in ('Always', 'Sometimes'):
+        hit = [c for c in in_loop if c.bb in cb.cell(arm, want[arm])]
+        miss = [c for c in in_loop if c.bb in cb.cell(arm, not want[arm])]
+        evald = [c for c in cb.cond_calls if c.bb in cb.cell(arm)]
+        if not hit and not miss:
+            ctx.bad(rule, 'polarity-%s' % arm, b, '%s: no discovery is ever recorded in the %s arm' % (cb.strat, arm))
             continue
-        seen.add(arm)
-        conds = cb.cond_in_arm(arm)
-        ok = False
-        for cc in conds:
-            e = b.branch(cc, want[arm])
-            if e and b.edges_dominate(e, ins.bb, frm=[cc.bb]):
-                ok = True
-        ctx.check(ok, rule, 'polarity-%s' % arm, b,
+        ctx.check(bool(hit) and not miss and bool(evald), rule, 'polarity-%s' % arm, b,
                   good='%s: discovery recorded only when the condition returned %s' % (arm, want[arm]),
                   bad='%s: in the %s arm the discovery at %s is not control-dependent on the condition '
                       'returning %s: the verdict polarity is wrong (a %s is reported for a state that %s)'
-                      % (cb.strat, arm, ins.span, want[arm],
+                      % (cb.strat, arm, (hit + miss)[0].span, want[arm],
                          'counterexample' if arm == 'Always' else 'example',
                          'satisfies the invariant' if arm == 'Always' else 'does not satisfy the condition'),
-                  span=ins.span)
-    for arm in want:
-        if arm not in seen:
-            ctx.bad(rule, 'polarity-%s' % arm, b, '%s: no discovery is ever recorded in the %s arm' % (cb.strat, arm))
+                  span=(hit + miss)[0].span)
+    ev_hits = [c for c in in_loop if c.bb in cb.cell('Eventually')]
+    if ev_hits:
+        ctx.bad(rule, 'insert-in-Eventually-arm', b,
+                '%s: a discovery is recorded in the Eventually arm of the expectation match: eventually discoveries '
+                'are only legitimate at terminal states' % cb.strat, span=ev_hits[0].span)
+    stray = [c for c in cb.as_inserts if c not in in_loop]
+    for c in stray:
+        ctx.bad(rule, 'insert-in-other-arm', b, '%s: a discovery is recorded at %s outside the property loop and '
+                                                'the terminal-state rule: unexpected site' % (cb.strat, c.span), span=c.span)
     # each arm evaluates exactly one condition, on (model, state)
     for arm in ('Always', 'Sometimes', 'Eventually'):
         conds = cb.cond_in_arm(arm)
